@@ -24,6 +24,7 @@ class Unit:
         self.items = []                     # dicts: name, kind, file, line, contract
         self.assumed = []                   # contract ids used as external_body stubs
         self.trusted = []                   # free-text trusted assumptions (assume_specification ...)
+        self.axioms = []                    # lemma names used as axioms here (proved in the unit that owns them)
         self.rlimit = 60
         self.extra_args = []
 
@@ -31,6 +32,9 @@ class Unit:
     def raw(self, text):
         self.chunks.append(text)
         for m in re.finditer(r'^\s*(?:pub )?(?:broadcast )?proof fn (\w+)', text, flags=re.M):
+            if text[max(0, m.start() - 40):m.start()].rstrip().endswith('#[verifier::external_body]'):
+                self.axioms.append(m.group(1))
+                continue
             self.items.append(dict(name='lemma ' + m.group(1), kind='lemma', file='(verif spec)', line=0))
         for m in re.finditer(r'assume_specification\s*(?:<[^>]*>\s*)?\[\s*([^\]]+)\]', text):
             self.trusted.append('assume_specification[%s] (documented std behaviour)' % m.group(1).strip())
